@@ -358,4 +358,381 @@ example : ((jqMach 2).run [.put 0 1, .put 0 2, .put 1 10, .fwd true, .put 1 11, 
 example : (jrEvents 2 (fun p => if p = 1 then some 6 else none) true) = ([.reserve 1 6, .release 1], none) ∧
     (jrEvents 2 (fun p => some (p + 5)) true).1 = [.reserve 1 6, .reserve 0 5, .consume 1, .consume 0] := by decide
 
+/-! ## Extension (a): the aggregator-based buffering nodes as coded, one aggregator batch at a time
+
+`Batch.handleOps` is `buffer_node::handle_operations_impl` (and, through `Core.order`, the priority queue's version) over
+a whole batch; `Batch.runHistory` executes a concurrent history as the aggregator serialises it.  The single
+hypothesis about the aggregator is the shape of `runHistory` / `batchOf` itself: handlers are serial, every
+submitted operation is in exactly one batch and gets its status inside it, and a batch is the pending stack at the
+handler's `exchange`, i.e. the operations in REVERSED arrival order — which is what C13's
+`aggregator_serial_exactly_once` proves of the very same `aggregator_generic::execute / start_handle_operations`. -/
+
+open Batch
+
+/-- **A batch is linearizable, in reversed arrival order.**  For every node kind (`C`), switch skeleton, successor
+behaviour `ω` (accept / reject / reject-and-switch-to-pull per `try_put_task`), state and batch: the statuses and values
+the handler stores into the operations, the successor cache, every offer made to a successor and the core state
+(buffer, reservation, ghost logs) are exactly those of executing the operations ONE AT A TIME, each as its own critical
+section, in the order in which the handler finds them in the list — the reverse of the order in which they were pushed
+onto `pending_operations` (so the handler's own operation, pushed first, takes effect last).  The only things decided
+per batch rather than per operation are `derived->order()` (priority queue: `heapify`) and whether a forwarding task
+is created (`forwarder_busy`, see `forwarder_task_no_loss`). -/
+theorem node_batch_linearizable {σ : Type} (C : Core σ) (sk : Skel) (ω : Nat → Verdict) (s : NSt σ) (arrivals : List NOp) :
+    let r := handleOps C sk ω s (batchOf arrivals)
+    let q := seqRun C ω arrivals.reverse s
+    r.2.1 = q.2 ∧ r.1.succs = q.1.succs ∧ r.1.tick = q.1.tick ∧ r.1.offers = q.1.offers ∧
+      (r.1.core = C.order q.1.core ∨ r.1.core = C.setBusy (C.order q.1.core) true) := by
+  intro r q
+  obtain ⟨h1, h2⟩ := handleLoop_seq C sk ω arrivals.reverse s false
+  have hr : r = handleOps C sk ω s arrivals.reverse := rfl
+  rw [hr]
+  unfold handleOps epilogue
+  dsimp only
+  rw [h1, h2]
+  split
+  · exact ⟨rfl, rfl, rfl, rfl, Or.inr rfl⟩
+  · exact ⟨rfl, rfl, rfl, rfl, Or.inl rfl⟩
+
+/-- **The node contracts hold across arbitrary sequences of batches** — i.e. for every concurrent history, given the
+aggregator's serialisation — whatever the switch does with `try_forwarding` and whatever the successors answer:
+queue_node is FIFO; sequencer_node hands out exactly 0,1,2,… and rejects stale numbers; buffer_node (whose `try_get`
+respects a reservation) and queue_node keep reservations safe and conserve items; priority_queue_node conserves items,
+is completely heaped at every batch boundary (so the first hand-out of a batch is a maximum of everything buffered),
+and inside a batch (after any prefix `pre` of it) whatever it hands out dominates the heap part and the last pushed item. -/
+theorem node_contract_under_batches (mode : Nat) (f : Nat → Nat) (sk : Skel) (ω : Nat → Verdict) (hist : List (List NOp)) :
+    (let s := (runHistory (bufCore .queue mode f) sk ω bufInit hist).core
+     s.ub = false ∧ s.out <+: s.acc ∧ ∃ items, s.buf.view = qview s.reserved items ∧ s.out ++ items = s.acc) ∧
+    (let s := (runHistory (bufCore .sequencer mode f) sk ω bufInit hist).core
+     s.ub = false ∧ s.out.map f = List.range s.buf.head ∧ (s.out ++ present s.buf.view).Perm s.acc ∧
+       (∀ v, f v < s.buf.head → bufStep .sequencer mode f s (.put v) = (s, .rejected))) ∧
+    (1 ≤ mode → let s := (runHistory (bufCore .buffer mode f) sk ω bufInit hist).core
+     s.ub = false ∧ ∃ items, s.buf.view = qview s.reserved items ∧ (s.reserved = true → items ≠ []) ∧
+       (s.out ++ items).Perm s.acc) ∧
+    (let s := (runHistory prioCore sk ω prioInit hist).core
+     s.mark = s.data.length ∧ (s.out ++ s.data ++ s.resv.toList).Perm s.acc ∧
+       (∀ op x, emitted (prioStep s op).2 = some x → ∀ y ∈ s.data, y ≤ x) ∧
+       (∀ pre tf op x, let m := (handleLoop prioCore sk ω pre (runHistory prioCore sk ω prioInit hist) tf).1.core
+          emitted (prioStep m op).2 = some x →
+            x ∈ m.data ∧ (∀ i, i < m.mark → m.data.getD i 0 ≤ x) ∧ m.data.getD (m.data.length - 1) 0 ≤ x)) := by
+  refine ⟨?_, ?_, ?_, ?_⟩
+  · intro s
+    obtain ⟨_, noub, items, hv, _, _, hq⟩ :=
+      runHistory_pres (pres_ninv .queue mode f (by decide) (by intro h; cases h)) sk ω hist bufInit (ninv_init .queue)
+    exact ⟨noub, ⟨items, hq rfl⟩, items, hv, hq rfl⟩
+  · intro s
+    have h : SInv f s := runHistory_pres (pres_sinv mode f) sk ω hist bufInit (sinv_init f)
+    refine ⟨h.noub, h.order, h.cons, ?_⟩
+    intro v hv
+    have := (seqPush_spec s.buf h.wf (f v) v).1 hv
+    simp [bufStep, h.noub, this]
+  · intro hm s
+    obtain ⟨_, noub, items, hv, hne, hp, _⟩ :=
+      runHistory_pres (pres_ninv .buffer mode f (by decide) (fun _ => hm)) sk ω hist bufInit (ninv_init .buffer)
+    exact ⟨noub, items, hv, hne, hp⟩
+  · intro s
+    have h : PInv s := runHistory_pres pres_pinv sk ω hist prioInit Prio.pinv_init
+    have hm : s.mark = s.data.length := runHistory_mark sk ω hist prioInit Prio.pinv_init rfl
+    refine ⟨hm, h.cons, fun op x hx => prio_emits_max_of_ordered s op h hm x hx, ?_⟩
+    intro pre tf op x m hx
+    exact prio_emits m op (handleLoop_pres pres_pinv sk ω pre _ tf h) x hx
+
+/-- **No lost forward (the `forwarder_busy` protocol).**  `forwarder_busy` is read and written only inside the handler:
+it is set by the epilogue of a batch when it creates a forwarding task, and cleared by `internal_forward_task` exactly
+when it stores FAILED into the forwarder's operation — which is what makes `forward_task()` leave its loop.  For every
+history, successor behaviour and node kind:
+1. *flag = liveness of a forwarder*: `forwarder_busy` holds iff exactly one forwarder is still going to submit a
+   `try_fwd_task`, and there is never more than one (no forwarder "about to exit" with the flag still set, none running
+   with the flag cleared);
+2. *no lost request*: if any operation of a batch asks for forwarding (a registered successor, a released or consumed
+   reservation, an ACCEPTED put), then after the batch the flag is set and a forwarder is live — provided the switch
+   never withdraws a request (`Skel.ok`; for kinds whose push cannot fail `Skel.okTotalPush`, which the pinned switch
+   `try_forwarding = internal_push(tmp)` satisfies; for the sequencer it does NOT: `sequencer_failed_put_cancels_forward`);
+3. *a forwarder gives up only when there is nothing to do*: when `internal_forward_task` stores FAILED, the node was
+   reserved or had no valid item, or no successor was registered, or it ran out of valid items, or its last round
+   offered the then-current candidate to every successor in the cache and each of them refused. -/
+theorem forwarder_task_no_loss (k : Kind) (mode : Nat) (f : Nat → Nat) (sk : Skel) (ω : Nat → Verdict)
+    (hist : List (List NOp)) (arrivals : List NOp)
+    (hsk : if k = .sequencer then sk.ok = true else sk.okTotalPush = true) (hm : k = .buffer → 1 ≤ mode) :
+    let C := bufCore k mode f
+    let s := runHistory C sk ω bufInit hist
+    let s' := (handleOps C sk ω s (batchOf arrivals)).1
+    ((s.core.busy = true ↔ s.live = 1) ∧ s.live ≤ 1) ∧
+    (hasTrigger C ω (batchOf arrivals) s = true → s'.core.busy = true ∧ s'.live = 1) ∧
+    ((internalForward C ω s).2 = false →
+      C.blocked s.core = true ∨ s.succs = [] ∨
+      (∃ s1 c last, fwdLoop C ω s.succs.length s false = (s1, c, last) ∧ 0 < c ∧ C.valid s1.core = false) ∨
+      (∃ s0 : NSt BufSt, C.valid s0.core = true ∧ (cacheTry ω (C.cand s0.core) s0.succs s0.tick).1 = false ∧
+        (∀ r ∈ s0.succs, ∃ vd, vd ≠ Verdict.accept ∧ (r, C.cand s0.core, vd) ∈ (internalForward C ω s).1.offers))) := by
+  intro C s s'
+  have hL : LiveInv C s := runHistory_live (lawful_buf k mode f) sk ω hist bufInit (liveInv_init_buf k mode f)
+  refine ⟨hL, ?_, ?_⟩
+  · intro ht
+    by_cases hk : k = .sequencer
+    · subst hk
+      simp only [if_true] at hsk
+      exact handleOps_trigger (lawful_buf _ mode f) (pres_true _) sk ω (goodSwitch_ok _ sk ω hsk) s _ trivial hL ht
+    · simp only [hk, if_false] at hsk
+      have hP : NInv k s.core := runHistory_pres (pres_ninv k mode f hk hm) sk ω hist bufInit (ninv_init k)
+      exact handleOps_trigger (lawful_buf k mode f) (pres_ninv k mode f hk hm) sk ω
+        (goodSwitch_totalPush _ sk ω (NInv k) (fun st v h => put_ok_buf k mode f hk st v h) hsk) s _ hP hL ht
+  · intro hf
+    rcases internalForward_failed C ω s hf with h | h | h | ⟨s0, h1, h2, _, h4⟩
+    · exact Or.inl h
+    · exact Or.inr (Or.inl h)
+    · exact Or.inr (Or.inr (Or.inl h))
+    · refine Or.inr (Or.inr (Or.inr ⟨s0, h1, h2, ?_⟩))
+      intro r hr
+      obtain ⟨vd, hv1, hv2⟩ := cacheTry_false ω _ _ _ h2 r hr
+      exact ⟨vd, hv1, by rw [h4]; exact List.mem_append_right _ hv2⟩
+
+/-- the same for priority_queue_node (its `internal_push` cannot fail) -/
+theorem forwarder_task_no_loss_prio (sk : Skel) (ω : Nat → Verdict) (hist : List (List NOp)) (arrivals : List NOp)
+    (hsk : sk.okTotalPush = true) :
+    let s := runHistory prioCore sk ω prioInit hist
+    let s' := (handleOps prioCore sk ω s (batchOf arrivals)).1
+    ((s.core.busy = true ↔ s.live = 1) ∧ s.live ≤ 1) ∧
+    (hasTrigger prioCore ω (batchOf arrivals) s = true → s'.core.busy = true ∧ s'.live = 1) := by
+  intro s s'
+  have hL : LiveInv prioCore s := runHistory_live lawful_prio sk ω hist prioInit liveInv_init_prio
+  refine ⟨hL, fun ht => ?_⟩
+  exact handleOps_trigger lawful_prio (pres_true _) sk ω
+    (goodSwitch_totalPush _ sk ω (fun _ => True) (fun st v _ => put_ok_prio st v) hsk) s _ trivial hL ht
+
+/-- The pinned switch satisfies the hypothesis of `forwarder_task_no_loss` for buffer / queue / priority queue nodes,
+the repaired one (`if (internal_push(tmp)) try_forwarding = true`) for every kind. -/
+theorem pinned_switch_ok : Skel.pinned.okTotalPush = true ∧ Skel.pinned.ok = false ∧
+    ({ Skel.pinned with putItem := .orAssign } : Skel).ok = true := by decide
+
+/-- **Defect (sequencer_node, reproduced on the real node).**  `case put_item: try_forwarding = internal_push(tmp)`
+ASSIGNS the flag: a put that the sequencer rejects (duplicate or stale sequence number) and that the handler finds
+later in the same batch than an accepted put (i.e. it ARRIVED EARLIER) withdraws the forwarding request of the accepted
+put.  Here: a sequencer with one registered, accepting successor and an idle forwarder receives, in one batch, the
+rejected duplicate (arrived first) and item 0 (arrived second): item 0 is accepted (SUCCEEDED), the duplicate is FAILED,
+no forwarding task is created, `forwarder_busy` stays false, and item 0 sits in the buffer with an accepting successor
+registered — `wait_for_all()` returns without it ever being offered.  With the repaired switch the task is created. -/
+theorem sequencer_failed_put_cancels_forward :
+    let C := bufCore .sequencer 1 (· / 8)
+    let s0 : NSt BufSt := { core := {}, succs := [0] }
+    let r := handleOps C Skel.pinned (fun _ => .accept) s0 (batchOf [.putItem 1, .putItem 0])
+    r.2.1 = [.succeeded, .failed] ∧ r.2.2 = false ∧ r.1.core.busy = false ∧ r.1.live = 0 ∧
+      r.1.core.buf.view = [some (0, false)] ∧ r.1.succs = [0] ∧ r.1.offers = [] ∧
+      hasTrigger C (fun _ => .accept) (batchOf [.putItem 1, .putItem 0]) s0 = true ∧
+      (handleOps C { Skel.pinned with putItem := .orAssign } (fun _ => .accept) s0 (batchOf [.putItem 1, .putItem 0])).2.2 = true := by
+  decide
+
+/-- **The regenerated `size_t` index expressions** of `item_buffer` / `sequencer_node::internal_push` (translated from the
+source text of the current tree into 64-bit wrap-around arithmetic, `Generated.C15`) mean what the model says, as long as
+nothing wraps: `i & (my_array_size - 1)`, `my_item_valid`, `tag < my_head`, `new_tail = (tag+1 > my_tail) ? tag+1 : my_tail`,
+`size(new_tail)`, the grow test. -/
+theorem generated_index_expressions :
+    (∀ i n, 0 < n → n < 2 ^ 64 → Generated.C15.slotIdx i n = ItemBuf.idx n i) ∧
+    (∀ i head tail st, Generated.C15.itemValid i head tail st = (decide (i < tail) && decide (head ≤ i) && decide (st ≠ 0))) ∧
+    (∀ tag head, Generated.C15.seqStale tag head = decide (tag < head)) ∧
+    (∀ tag tail, tag + 1 < 2 ^ 64 → Generated.C15.seqNewTail tag tail = if tag + 1 > tail then tag + 1 else tail) ∧
+    (∀ newTail tail head, newTail ≠ 0 → head ≤ newTail → newTail < 2 ^ 64 → Generated.C15.sizeOf newTail tail head = newTail - head) ∧
+    (∀ sz cap, Generated.C15.seqGrowCond sz cap = decide (sz > cap)) ∧
+    Generated.C15.sizeofSizeT = 8 :=
+  ⟨gen_slotIdx, gen_itemValid, gen_seqStale, gen_seqNewTail, gen_sizeOf, gen_seqGrowCond, by decide⟩
+
+/-- **The sequencer rejects duplicates and stays gap-free — in the code's `size_t` arithmetic, for sequence numbers far
+beyond 2^32.**  `seqMach64` is the sequencer whose `internal_push` is computed with the regenerated 64-bit expressions
+(`seqPush64`).  For every operation sequence whose sequence numbers are below 2^62: nothing wraps — the 64-bit machine
+is the unbounded model, step for step (states and results) —, the ring never needs 2^63 slots, and in every reachable
+state: no asserted precondition was violated; the items handed out carry exactly the numbers 0,1,…,`my_head`-1 in this
+order (no gap, no duplicate, no overtaking); nothing accepted is lost; every buffered item sits at the index of its
+number; a put whose number is below `my_head` (already emitted — in particular `my_head - 1`) is rejected and changes
+nothing; a put whose number is already buffered (a duplicate) is rejected and changes nothing.
+(Numbers ≥ 2^62 are outside the theorem: `tag + 1` wraps at 2^64 - 1, and `grow_my_array`'s doubling loop cannot
+terminate for a minimum above 2^63; the array such a number would need does not fit in memory anyway.) -/
+theorem sequencer_rejects_duplicates_and_keeps_gap_free (mode : Nat) (f : Nat → Nat) (ops : List BufOp)
+    (hf : ∀ v, BufOp.put v ∈ ops → f v < 2 ^ 62) :
+    (seqMach64 mode f).run ops = (bufMach .sequencer mode f).run ops ∧
+    (let s := ((seqMach64 mode f).run ops).1
+     s.ub = false ∧ s.buf.arr.length < 2 ^ 63 ∧ s.out.map f = List.range s.buf.head ∧
+      (s.out ++ present s.buf.view).Perm s.acc ∧
+      (∀ j x r, s.buf.view[j]? = some (some (x, r)) → f x = s.buf.head + j) ∧
+      (∀ v, f v < s.buf.head → seqStep64 mode f s (.put v) = (s, .rejected)) ∧
+      (∀ v x r, f v < 2 ^ 62 → s.buf.head ≤ f v → s.buf.view[f v - s.buf.head]? = some (some (x, r)) →
+        (seqStep64 mode f s (.put v)).2 = .rejected ∧ (seqStep64 mode f s (.put v)).1.buf.view = s.buf.view ∧
+        (seqStep64 mode f s (.put v)).1.out = s.out ∧ (seqStep64 mode f s (.put v)).1.acc = s.acc)) := by
+  have he : (seqMach64 mode f).run ops = (bufMach .sequencer mode f).run ops :=
+    seq64_runFrom mode f ops {} (sinv_init f) bnd_init hf
+  refine ⟨he, ?_⟩
+  intro s
+  have hs' : s = ((bufMach .sequencer mode f).run ops).1 := by show ((seqMach64 mode f).run ops).1 = _; rw [he]
+  obtain ⟨h, hb⟩ := seq_bnd_runFrom mode f ops {} (sinv_init f) bnd_init hf
+  have h : SInv f s := by rw [hs']; exact h
+  have hb : Bnd s := by rw [hs']; exact hb
+  refine ⟨h.noub, hb.1, h.order, h.cons, h.tags, ?_, ?_⟩
+  · intro v hv
+    have hv62 : f v < 2 ^ 62 := by have := hb.2; have := h.wf.le; omega
+    rw [(seqStep64_eq mode f s (.put v) h.wf hb (fun w e => by cases e; exact hv62)).1]
+    have := (seqPush_spec s.buf h.wf (f v) v).1 hv
+    simp [bufStep, h.noub, this]
+  · intro v x r hv62 hge hocc
+    rw [(seqStep64_eq mode f s (.put v) h.wf hb (fun w e => by cases e; exact hv62)).1]
+    exact seq_dup_rejected mode f s h v x r hge hocc
+
+-- sequence numbers beyond 2^32: nothing is truncated to 32 bits (items 2^32+1, 2^32, then a duplicate of 2^32+1, on a
+-- sequencer whose my_head was brought to 2^32 by emitting 2^32 items is out of reach of `decide`; the small instance:)
+example : ((seqMach64 0 (· / 8)).run [.put 17, .put 9, .fwd true, .put 3, .put 4, .fwd true, .fwd true, .fwd true, .put 1, .put 25, .put 26]).2 =
+    [.ok, .ok, .none, .ok, .rejected, .offered 3 true, .offered 9 true, .offered 17 true, .rejected, .ok, .rejected] := by decide
+
+/-! ## Extension (b): join_node as coded — `join_node_base::handle_operations` over batches, the three front ends, successors
+that refuse tuples, any number of ports
+
+`Join.runHistory F portStep ω s hist` executes a history of port events (messages arriving at ports / predecessors
+offering items; they run on the ports' own aggregators) and batches of the base node (`reg_succ`, `rem_succ`, `try__get`,
+`do_fwrd_bypass`, in reversed arrival order), the successors answering by the oracle `ω`. -/
+
+open Join
+
+/-- **Queueing join, as coded, any number of ports `n`, any history, any successor behaviour**: the conclusions of
+`join_queueing_ith` hold in every reachable state of the coded protocol — every tuple handed on (accepted by a successor
+or taken by `try_get`) is complete, the i-th tuple consists of the i-th message of every port, nothing is lost or
+reordered at any port, `ports_with_no_items` is exact — and the tuple the loop offers is exactly the one `tuple_accepted`
+then removes, while `tuple_rejected` leaves the front end untouched (so the same tuple is offered again at the re-try). -/
+theorem join_queueing_ith_batches (n : Nat) (ω : Nat → Verdict) (hist : List (Ev (Nat × Nat))) :
+    let s := (Join.runHistory jqFE (fun s pv => (jqStep s (.put pv.1 pv.2)).1) ω { fe := jqInit n } hist).fe
+    (s.ub = false ∧ s.pwni = nEmpty s.ports ∧ (∀ t ∈ s.out, t.length = n) ∧
+      (∀ p, p < n → s.out.map (fun t => t.getD p 0) ++ s.ports.getD p [] = s.acc.getD p []) ∧
+      (∀ p i, p < n → i < s.out.length → (s.out.getD i []).getD p 0 = (s.acc.getD p []).getD i 0)) ∧
+    (∀ t, jqFE.peek s = some t → (jqFE.attempt s true).out = s.out ++ [t] ∧ jqFE.attempt s false = s) := by
+  intro s
+  have h : JqInv n s := Join.runHistory_pres jqFE _ ω (JqInv n) (fun s a hp => jqinv_step n s (.fwd a) hp)
+    (fun s pv hp => jqinv_step n s (.put pv.1 pv.2) hp) hist _ (jqinv_init n)
+  refine ⟨⟨h.noub, h.cnt, h.tlen, h.fifo, ?_⟩, ?_⟩
+  · intro p i hp hi
+    have e := h.fifo p hp
+    rw [← e]
+    simp only [List.getD_eq_getElem?_getD]
+    rw [List.getElem?_append_left (by simpa using hi), List.getElem?_map]
+    cases s.out[i]? <;> simp
+  · intro t ht
+    refine ⟨?_, jq_attempt_false s⟩
+    have hub : s.ub = false := h.noub
+    simp only [jqFE, hub, Bool.false_or, ne_eq, decide_not, Bool.not_eq_true', decide_eq_false_iff_not, ite_not] at ht
+    split at ht
+    · rename_i h0
+      show (jqStep s (.fwd true)).1.out = s.out ++ [t]
+      simp [jqStep, hub, h0, ht]
+    · cases ht
+
+/-- **Key-matching join, as coded** (any `n`, history, successor behaviour): the conclusions of
+`join_key_matching_same_key_once` hold in every reachable state; the tuple offered is the front of the front end's output
+buffer, `tuple_accepted` removes exactly it, and a refused tuple stays there (the key's messages were taken out of the
+ports when the tuple was built, and are used in that one tuple only). -/
+theorem join_key_matching_same_key_once_batches (n : Nat) (kf : Nat → Nat) (hn : 0 < n) (ω : Nat → Verdict)
+    (hist : List (Ev (Nat × Nat))) :
+    let s := (Join.runHistory (jkFE kf) (fun s pv => (jkStep kf s (.put pv.1 pv.2)).1) ω { fe := jkInit n } hist).fe
+    (s.ub = false ∧ (∀ t ∈ s.outbuf ++ s.out, t.length = n ∧ ∃ k, ∀ v ∈ t, kf v = k) ∧
+      (∀ t ∈ s.ports, ∀ x ∈ t, kf x.2 = x.1) ∧
+      (∀ k, (Assoc.find s.counts k).getD 0 = holders s.ports k ∧ holders s.ports k < n)) ∧
+    (∀ t, (jkFE kf).peek s = some t →
+      (∃ rest, s.outbuf = t :: rest ∧ ((jkFE kf).attempt s true).outbuf = rest ∧ ((jkFE kf).attempt s true).out = s.out ++ [t]) ∧
+      (jkFE kf).attempt s false = s) := by
+  intro s
+  have h : JkInv n kf s := Join.runHistory_pres (jkFE kf) _ ω (JkInv n kf) (fun s a hp => jkinv_step n kf s (.fwd a) hp)
+    (fun s pv hp => jkinv_step n kf s (.put pv.1 pv.2) hp) hist _ (jkinv_init n kf hn)
+  refine ⟨⟨h.noub, h.tuples, h.keyed, fun k => ⟨h.cnt k, h.lt k⟩⟩, ?_⟩
+  intro t ht
+  refine ⟨?_, jk_attempt_false kf s⟩
+  have hub : s.ub = false := h.noub
+  simp only [jkFE, hub, Bool.false_eq_true, if_false] at ht
+  cases hob : s.outbuf with
+  | nil => rw [hob] at ht; cases ht
+  | cons x rest =>
+    rw [hob] at ht
+    simp only [List.head?_cons, Option.some.injEq] at ht
+    subst ht
+    refine ⟨rest, rfl, ?_, ?_⟩
+    · show (jkStep kf s (.fwd true)).1.outbuf = rest
+      simp [jkStep, hub, hob]
+    · show (jkStep kf s (.fwd true)).1.out = s.out ++ [x]
+      simp [jkStep, hub, hob]
+
+/-- **Reserving join, as coded: all or nothing** (any `n`, any history of predecessor offers and base-node batches, any
+successor behaviour): between attempts no port is left reserved; one attempt (`try_to_make_tuple` + verdict) consumes at
+the ports only if every port could be reserved AND a successor accepted the tuple — then every port is consumed — and in
+every other case (a port without an item, a refused tuple) every reservation made is released and nothing is consumed. -/
+theorem join_reserving_all_or_nothing_batches (n : Nat) (ω : Nat → Verdict) (hist : List (Ev (Nat × Nat))) :
+    let s := (Join.runHistory jrFE jrOffer ω { fe := jrInit n } hist).fe
+    s.core.resv = List.replicate n false ∧ s.core.n = n ∧
+    (∀ a, (jrFE.attempt s a).core.resv = List.replicate n false) ∧
+    (∀ a, (jrFE.peek s = none ∨ a = false) → ∀ e ∈ (jrFE.attempt s a).evs, isConsume e = false) := by
+  intro s
+  have h : JrOk n s := Join.runHistory_pres jrFE jrOffer ω (JrOk n) (fun s a hp => jr_attempt_ok n s a hp)
+    (fun s pv hp => jr_offer_ok n s pv hp) hist _ ⟨rfl, rfl⟩
+  refine ⟨h.1, h.2, fun a => (jr_attempt_ok n s a h).1, ?_⟩
+  intro a ha
+  show ∀ e ∈ (jrAttempt s a).evs, isConsume e = false
+  by_cases h0 : s.pwni = 0
+  · rw [jr_attempt_events s a h0]
+    rcases ha with hpk | rfl
+    · have hfp : (jrFailPort s.avail s.core.n).isSome = true := by
+        cases hf : jrFailPort s.avail s.core.n with
+        | some k => rfl
+        | none =>
+          have : jrFE.peek s = some (s.avail.map (·.getD 0)) := by
+            simp only [jrFE, h0, ne_eq, not_true_eq_false, if_false, hf]
+          rw [this] at hpk; cases hpk
+      simp only [hfp, if_true]
+      exact (jrEvents_spec s.core.n _ false).2.1 (Or.inr rfl)
+    · have hc : (if (jrFailPort s.avail s.core.n).isSome then false else false) = false := by split <;> rfl
+      rw [hc]
+      exact (jrEvents_spec s.core.n _ false).2.1 (Or.inr rfl)
+  · unfold jrAttempt
+    rw [if_pos h0]
+    intro e he; cases he
+
+/-- **A refused tuple consumes nothing.**  When `do_fwrd_bypass` builds a tuple that every successor refuses, the handler
+makes exactly one attempt and ends it with `tuple_rejected`: every successor of the cache was offered that tuple and none
+took it; `forwarder_busy` is cleared; and the front end is as before the attempt — queueing: all ports, the counter and
+the log untouched (the items stay at the fronts); key_matching: the tuple stays at the front of the output buffer;
+reserving: every reservation is released, no port consumed anything, the predecessors still hold their items. -/
+theorem join_no_partial_consumption_on_reject {σ : Type} (F : FE σ) (ω : Nat → Verdict) (s : JSt σ) (t : List Nat)
+    (hm : F.maySucceed s.fe = true) (hp : F.peek s.fe = some t) (hr : (bcastTry ω t s.succs s.tick).1 = false) :
+    ((Join.handleOne F ω s .doFwd).1.fe = F.attempt s.fe false ∧ (Join.handleOne F ω s .doFwd).1.busy = false ∧
+      ∀ r ∈ s.succs, ∃ vd, vd ≠ Verdict.accept ∧ (r, t, vd) ∈ (Join.handleOne F ω s .doFwd).1.offers) ∧
+    (∀ q : JqSt, jqFE.attempt q false = q) ∧ (∀ kf (q : JkSt), (jkFE kf).attempt q false = q) ∧
+    (∀ q : JrFe, (∀ e ∈ (jrFE.attempt q false).evs, isConsume e = false) ∧ (jrFE.attempt q false).avail = q.avail ∧
+      (jrFE.attempt q false).core.out = q.core.out) := by
+  obtain ⟨h1, h2, h3⟩ := doFwd_refused F ω s t hm hp hr
+  refine ⟨⟨h1, h3, ?_⟩, jq_attempt_false, jk_attempt_false, jr_attempt_false⟩
+  intro r hr'
+  obtain ⟨vd, hv1, hv2⟩ := bcastTry_false ω t _ _ hr r hr'
+  exact ⟨vd, hv1, by rw [h2]; exact List.mem_append_right _ hv2⟩
+
+-- join_node as coded: both ports filled; do_fwrd_bypass with no successor builds the tuple and rejects it (nothing consumed);
+-- reg_succ creates the forwarder; its first offer is refused (the successor stays), the re-try is accepted
+example :
+    let ω : Nat → Verdict := fun k => if k == 0 then .reject else .accept
+    let put : JqSt → Nat × Nat → JqSt := fun s pv => (jqStep s (.put pv.1 pv.2)).1
+    let s := Join.runHistory jqFE put ω { fe := jqInit 2 }
+      [.port (0, 1), .port (1, 10), .batch [.regSucc 7, .doFwd], .batch [.doFwd], .batch [.doFwd]]
+    s.offers = [(7, [1, 10], .reject), (7, [1, 10], .accept)] ∧ s.fe.out = [[1, 10]] ∧ s.fe.ports = [[], []] ∧ s.tasks = 1 := by decide
+
+-- reserving join with 3 ports: the refused tuple releases all three reservations, nothing is consumed
+example :
+    let s := Join.runHistory jrFE jrOffer (fun _ => .reject) { fe := jrInit 3, succs := [0] }
+      [.port (0, 5), .port (1, 6), .port (2, 7), .batch [.doFwd]]
+    s.fe.evs = [.reserve 2 7, .reserve 1 6, .reserve 0 5, .release 0, .release 1, .release 2] ∧
+      s.fe.avail = [some 5, some 6, some 7] ∧ s.fe.core.resv = [false, false, false] ∧ s.offers = [(0, [5, 6, 7], .reject)] := by decide
+
+-- a batch is executed in REVERSED arrival order: `get` arrived last, so it runs first and finds the queue empty;
+-- then 2 is pushed before 1
+example : let r := handleOps (bufCore .queue 1 id) Skel.pinned (fun _ => .accept) bufInit (batchOf [.putItem 1, .putItem 2, .reqItem])
+    r.2.1 = [.failed, .succeeded, .succeeded] ∧ r.1.core.buf.view = [some (2, false), some (1, false)] ∧ r.2.2 = true := by decide
+
+-- a forwarder whose offers are refused by a successor that stays in the cache gives up (FAILED clears the flag) …
+example : let s1 := (handleOps (bufCore .queue 1 id) Skel.pinned (fun _ => .reject) { core := {}, succs := [7] } [.putItem 5]).1
+    s1.core.busy = true ∧ s1.live = 1 ∧
+    (handleOps (bufCore .queue 1 id) Skel.pinned (fun _ => .reject) s1 [.tryFwd]).1.core.busy = false ∧
+    (handleOps (bufCore .queue 1 id) Skel.pinned (fun _ => .reject) s1 [.tryFwd]).1.offers = [(7, 5, .reject)] := by decide
+
+-- … and in the batch [failing try_fwd_task, put] (the forwarder is about to exit when the put arrives) a new one is created
+example : let s1 := (handleOps (bufCore .queue 1 id) Skel.pinned (fun _ => .rejectPull) { core := {}, succs := [7] } [.putItem 5]).1
+    let r := handleOps (bufCore .queue 1 id) Skel.pinned (fun _ => .rejectPull) s1 (batchOf [.putItem 6, .tryFwd])
+    r.2.1 = [.failed, .succeeded] ∧ r.2.2 = true ∧ r.1.core.busy = true ∧ r.1.live = 1 ∧ r.1.succs = [] := by decide
+
 end TbbVerif.C15
